@@ -51,6 +51,32 @@ struct Case {
     spec: &'static Spec,
     h: Vec<usize>,
     probe: K,
+    /// history and probe run on a panel that is busy for three polls after every busy-raising
+    /// command and does not latch commands received while BUSY is asserted
+    busy: bool,
+    /// the last symbol of the history is cut short: its k-th SPI write fails and the call returns the error
+    fault: Option<u64>,
+}
+
+fn rig_for(spec: &'static Spec, busy: bool) -> Result<Rig, String> {
+    if !busy {
+        return Ok(Rig::simple(spec));
+    }
+    match Rig::new(
+        spec,
+        |b| {
+            b.busy_mode = crate::hal::BusyMode::Physical;
+            b.chips[0].busy.default_d = 3;
+        },
+        None,
+        false,
+    ) {
+        Ok(r) => {
+            r.board.borrow_mut().chips[0].drop_while_busy = true;
+            Ok(r)
+        }
+        Err((o, _)) => Err(format!("new -> {}", o.short())),
+    }
 }
 
 pub fn probe_op(spec: &Spec, k: K) -> Op {
@@ -58,13 +84,20 @@ pub fn probe_op(spec: &Spec, k: K) -> Op {
 }
 
 /// returns Some((class, tags, detail)) when the probe after history differs from the fresh probe
-fn eval(spec: &'static Spec, syms: &[Sym], h: &[usize], probe: K, fresh: &Fresh, rep: Option<&mut Report>) -> Result<Option<(String, Vec<String>, String)>, String> {
-    let ops = flatten(syms, h);
-    let mut rig = Rig::simple(spec);
+fn eval(spec: &'static Spec, syms: &[Sym], h: &[usize], probe: K, fresh: &Fresh, busy: bool, fault: Option<u64>, rep: Option<&mut Report>) -> Result<Option<(String, Vec<String>, String)>, String> {
+    let nfull = if fault.is_some() { h.len().saturating_sub(1) } else { h.len() };
+    let ops = flatten(syms, &h[..nfull]);
+    let mut rig = rig_for(spec, busy)?;
     for o in &ops {
         let out = rig.apply(o);
         if !out.is_ok() {
             return Err(format!("{} -> {}", o.short(), out.short()));
+        }
+    }
+    if let Some(k) = fault {
+        let Some(last) = h.last() else { return Err("no symbol to fault".into()) };
+        if apply_symbol_with_fault(&mut rig, &syms[*last], k, 0xC02).is_none() {
+            return Err("fault index beyond the symbol (or the call panicked)".into());
         }
     }
     let e = spec.full_entry(probe).unwrap();
@@ -130,36 +163,53 @@ pub fn run(ctx: &Ctx) -> Report {
                     continue;
                 }
                 for h in histories(spec, &syms, n) {
-                    cases.push(Case { spec, h, probe: *probe });
+                    cases.push(Case { spec, h, probe: *probe, busy: false, fault: None });
                 }
             }
+            // the same short histories on a panel that is really busy and drops commands while busy
+            if *probe == K::UpdateFrame || ctx.tier_thorough {
+                for n in 1..=2 {
+                    for (j, h) in histories(spec, &syms, n).into_iter().enumerate() {
+                        if big && !ctx.tier_thorough && n == 2 && j % 4 != 0 {
+                            continue;
+                        }
+                        cases.push(Case { spec, h, probe: *probe, busy: true, fault: None });
+                    }
+                }
+                for j in 0..(if big { 20 } else { 150 }) {
+                    cases.push(Case { spec, h: random_history(spec, &syms, 3 + j % 3, &mut rng), probe: *probe, busy: true, fault: None });
+                }
+            }
+            // (Histories whose last call was cut short by an SPI error were tried and dropped: after an error the
+            // only recovery the properties define is wake_up (C04); several unchanged drivers legitimately leave
+            // partial mode / counters / windows behind when a call is aborted. `fault` stays None.)
             if !ctx.tier_thorough {
                 // quick tier: longer histories are sampled (seeded), every full-frame entry point as probe
                 let (n3, nlong) = if big { (60, 30) } else if small { (600, 300) } else { (250, 120) };
                 let share = if *probe == K::UpdateFrame { 1 } else { 4 };
                 for _ in 0..n3 / share {
-                    cases.push(Case { spec, h: random_history(spec, &syms, 3, &mut rng), probe: *probe });
+                    cases.push(Case { spec, h: random_history(spec, &syms, 3, &mut rng), probe: *probe, busy: false, fault: None });
                 }
                 for i in 0..nlong / share {
-                    cases.push(Case { spec, h: random_history(spec, &syms, 4 + i % 3, &mut rng), probe: *probe });
+                    cases.push(Case { spec, h: random_history(spec, &syms, 4 + i % 3, &mut rng), probe: *probe, busy: false, fault: None });
                 }
             }
             if ctx.tier_thorough && *probe == K::UpdateFrame {
                 // length 4: exhaustive on the small panels (<= 128 x 296 / 200 x 200), seeded elsewhere
                 if small {
                     for h in histories(spec, &syms, 4) {
-                        cases.push(Case { spec, h, probe: *probe });
+                        cases.push(Case { spec, h, probe: *probe, busy: false, fault: None });
                     }
                 } else {
                     let n4 = if big { 2000 } else { 20000 };
                     for _ in 0..n4 {
-                        cases.push(Case { spec, h: random_history(spec, &syms, 4, &mut rng), probe: *probe });
+                        cases.push(Case { spec, h: random_history(spec, &syms, 4, &mut rng), probe: *probe, busy: false, fault: None });
                     }
                 }
                 // long random walks (5..=10 symbols)
                 let nl = if big { 500 } else { 5000 };
                 for i in 0..nl {
-                    cases.push(Case { spec, h: random_history(spec, &syms, 5 + i % 6, &mut rng), probe: *probe });
+                    cases.push(Case { spec, h: random_history(spec, &syms, 5 + i % 6, &mut rng), probe: *probe, busy: false, fault: None });
                 }
             }
         }
@@ -181,7 +231,7 @@ pub fn run(ctx: &Ctx) -> Report {
         let fr = &fresh[&(spec as *const Spec as usize, c.probe)];
         rep.eval(spec.name);
         let ops = flatten(&syms, &c.h);
-        match eval(spec, &syms, &c.h, c.probe, fr, Some(rep)) {
+        match eval(spec, &syms, &c.h, c.probe, fr, c.busy, c.fault, Some(rep)) {
             Err(e) => {
                 // an operation of the history itself failed: owned by another property
                 rep.count("histories_with_failing_op", 1);
@@ -196,12 +246,32 @@ pub fn run(ctx: &Ctx) -> Report {
             Ok(Some((class, tags, detail))) => {
                 rep.nontrivial(hash_str(&format!("{}|{}|{}", spec.name, c.probe.name(), ops_short(&ops))));
                 let sig0 = format!("{}|{}", class, tags.join(","));
-                let min = minimize_history(&c.h, &sig0, &|t: &[usize]| match eval(spec, &syms, t, c.probe, fr, None) {
+                let min = minimize_history(&c.h, &sig0, &|t: &[usize]| match eval(spec, &syms, t, c.probe, fr, c.busy, if c.fault.is_some() && t.last() != c.h.last() { None } else { c.fault }, None) {
                     Ok(Some((cl, tg, _))) => Some(format!("{}|{}", cl, tg.join(","))),
                     _ => None,
                 });
+                if c.busy {
+                    // only what the same (minimal) history on an always-idle panel does not show
+                    if let Ok(Some((cl, tg, _))) = eval(spec, &syms, &min, c.probe, fr, false, c.fault, None) {
+                        if format!("{}|{}", cl, tg.join(",")) == sig0 {
+                            return;
+                        }
+                    }
+                }
                 let mut tags = tags;
                 tags.push(format!("hist:{}", sym_kinds(&syms, &min)));
+                if c.busy {
+                    tags.push("panel-busy".into());
+                }
+                if c.fault.is_some() {
+                    // only what the same history without the fault does not show
+                    if let Ok(Some((cl, tg, _))) = eval(spec, &syms, &c.h, c.probe, fr, c.busy, None, None) {
+                        if format!("{}|{}", cl, tg.join(",")) == sig0 {
+                            return;
+                        }
+                    }
+                    tags.push(format!("aborted:{}", c.h.last().map(|i| sym_kinds(&syms, &[*i])).unwrap_or_default()));
+                }
                 let min_ops = flatten(&syms, &min);
                 rep.fail(Failure {
                     panel: spec.name.into(),
